@@ -22,6 +22,7 @@ func init() {
 			"(R3) receiveAndCompareMagicNumber fills all three bytes with io.ReadFull and compares the whole array with the expected one (==); the client expects the server's number and sends the client's, the server does the reverse, and the two numbers differ; " +
 			"(R3 addition) the client, which speaks second, sends its magic number only after the server's was received and matched — a rejected handshake therefore fails on both sides; " +
 			"(R4) agent.connect hands out the stream only after ClientHandshake and ClientVersionHandshake both returned nil and closes it otherwise; the agent's server side (synchronizer, forwarder) performs ServerHandshake then ServerVersionHandshake before serving, returning on any error. " +
+			"(R5) sendVersion and sendMagicNumber return the error of the Write that carries the message (nil only where that error was nil), so a handshake whose outgoing half failed fails on this side too; " +
 			"Not decided: behaviour of the transport under corruption (follows from ReadFull/== by inspection).",
 		Assumptions: []string{"io.ReadFull returns an error unless the buffer was filled"},
 		Run:         runC34,
@@ -29,6 +30,7 @@ func init() {
 }
 
 func runC34(c *eng.Ctx) {
+	c34SendReportsWriteError(c)
 	consts := map[string]int64{}
 	for _, n := range []string{"VersionMajor", "VersionMinor", "VersionPatch"} {
 		v, err := c.P.ConstInt(mutagenPkg, n)
